@@ -39,6 +39,46 @@ fn build<F: ShortMessageFactory>(ctor: i64, a: &[i64]) -> F {
     }
 }
 
+/// The same constructor calls spelled the way callers spell them - `RawShortMessage::note_on(..)` on the
+/// CONCRETE type: an inherent associated function with the name of a factory function takes precedence there
+/// (and only there) over the trait's.
+macro_rules! build_on {
+    ($name:ident, $F:ty) => {
+        fn $name(ctor: i64, a: &[i64]) -> $F {
+            type F = $F;
+
+    let ch = || Channel::new(a[0] as u8);
+    match ctor {
+        0 => F::note_on(ch(), KeyNumber::new(a[1] as u8), U7::new(a[2] as u8)),
+        1 => F::note_off(ch(), KeyNumber::new(a[1] as u8), U7::new(a[2] as u8)),
+        2 => F::control_change(ch(), ControllerNumber::new(a[1] as u8), U7::new(a[2] as u8)),
+        3 => F::program_change(ch(), U7::new(a[1] as u8)),
+        4 => F::polyphonic_key_pressure(ch(), KeyNumber::new(a[1] as u8), U7::new(a[2] as u8)),
+        5 => F::channel_pressure(ch(), U7::new(a[1] as u8)),
+        6 => F::pitch_bend_change(ch(), U14::new(a[1] as u16)),
+        7 => F::system_exclusive_start(),
+        8 => F::time_code_quarter_frame(frame_of([a[0], a[1], a[2]])),
+        9 => F::song_position_pointer(U14::new(a[0] as u16)),
+        10 => F::song_select(U7::new(a[0] as u8)),
+        11 => F::tune_request(),
+        12 => F::system_exclusive_end(),
+        13 => F::timing_clock(),
+        14 => F::start(),
+        15 => F::r#continue(),
+        16 => F::stop(),
+        17 => F::active_sensing(),
+        18 => F::system_reset(),
+        20 => F::channel_message(ty(a[0]), Channel::new(a[1] as u8), U7::new(a[2] as u8), U7::new(a[3] as u8)),
+        21 => F::system_common_message(ty(a[0]), U7::new(a[1] as u8), U7::new(a[2] as u8)),
+        22 => F::system_real_time_message(ty(a[0])),
+        _ => panic!("ctor"),
+    }
+        }
+    };
+}
+build_on!(build_raw_path, RawShortMessage);
+build_on!(build_structured_path, StructuredShortMessage);
+
 fn build_shorthand(ctor: i64, a: &[i64]) -> RawShortMessage {
     use helgoboss_midi::test_util as t;
     let b = |i: usize| a[i] as u8;
@@ -73,8 +113,8 @@ pub fn factory_row(ctor: i64, imp: i64, a: [i64; 4]) -> Vec<i64> {
     let mut acc = Acc { allocs: 0 };
     match ctor {
         0..=22 => {
-            if imp == 0 {
-                let (m, al) = guarded(|| build::<RawShortMessage>(ctor, &a));
+            if imp == 0 || imp == 2 {
+                let (m, al) = guarded(|| if imp == 0 { build_raw_path(ctor, &a) } else { build::<RawShortMessage>(ctor, &a) });
                 row.extend_from_slice(&[m.is_none() as i64, al as i64]);
                 if let Some(m) = m {
                     // the row holds the vector taken with method syntax on the concrete type (what the caller of
@@ -86,7 +126,7 @@ pub fn factory_row(ctor: i64, imp: i64, a: [i64; 4]) -> Vec<i64> {
                     row.push((v == g) as i64);
                 }
             } else {
-                let (m, al) = guarded(|| build::<StructuredShortMessage>(ctor, &a));
+                let (m, al) = guarded(|| if imp == 1 { build_structured_path(ctor, &a) } else { build::<StructuredShortMessage>(ctor, &a) });
                 row.extend_from_slice(&[m.is_none() as i64, al as i64]);
                 if let Some(m) = m {
                     let v = obs_structured_method(&mut acc, &m);
@@ -163,7 +203,7 @@ pub fn table_factory(dir: &str, tier: &str, seed: u64, per: usize) -> (usize, u6
         vec![0, 1, 127, 128, 129, 200, 255, 256, 8191, 8192, 8320, 16255, 16256, 16382, 16383]
     };
     let mut r = Lcg(seed.wrapping_mul(31337).wrapping_add(5));
-    for imp in 0..2 {
+    for imp in 0..4 {
         for ctor in [0, 1, 2, 4] {
             for ch in 0..16 {
                 for &a in &d {
